@@ -661,6 +661,24 @@ func maybeAugmentTaprootResolvers(chanType channeldb.ChannelType,
 			if r.htlcResolution.ClaimOutpoint ==
 				htlcRes.ClaimOutpoint {
 
+				// The resolutions were logged when the channel
+				// was closed. A success resolver that started
+				// as an incoming contest resolver learned the
+				// preimage only afterwards and checkpointed it
+				// (and the success tx witness carrying it)
+				// with its own state, so keep those.
+				var zeroPreimage [32]byte
+				if r.htlcResolution.Preimage != zeroPreimage {
+					htlcRes.Preimage =
+						r.htlcResolution.Preimage
+
+					//nolint:ll
+					if r.htlcResolution.SignedSuccessTx != nil {
+						htlcRes.SignedSuccessTx =
+							r.htlcResolution.SignedSuccessTx
+					}
+				}
+
 				r.htlcResolution = htlcRes
 			}
 		}
